@@ -2,6 +2,8 @@ pub mod alloc;
 pub mod drain;
 pub mod engine;
 pub mod entity;
+pub mod fuzz;
+pub mod fuzzrun;
 pub mod panics;
 pub mod reqgen;
 pub mod sched;
